@@ -314,6 +314,30 @@ def run(ctx):
                 p = cfg.path(f, H.target, [P.bb], avoid=[I.bb, H.bb])
                 ctx.check(p is None, "C14-R4", "ignore-bypass", "no entry is pushed without the ignore directive having been checked for that statement", I.where(),
                           {"bypass_lines": [f.blocks[b]["term"].get("line") for b in (p or [])][:40]})
+                # before its own directive check a statement may only be skipped for its parse shape
+                # (not a log_macro pair, no macro_name): any other condition on the way from the pair
+                # loop's head to the check could ignore statements the directive does not precede
+                region = cfg.reach(f, [H.target], avoid=[I.bb, H.bb])
+                odd = []
+                for sb in sorted(region):
+                    t = f.term(sb)
+                    if t["k"] != "switch" or I.bb not in cfg.reach(f, [sb], avoid=[H.bb]):
+                        continue
+                    arms = f.succ[sb]
+                    if all(I.bb in cfg.reach(f, [a], avoid=[H.bb]) for a in arms if f.term(a)["k"] != "unreachable"):
+                        continue   # no arm skips the check
+                    es = enum_switch(f, sb)
+                    ok_shape = False
+                    if es is not None and not es[0]["p"]:
+                        ty = f.local_ty(es[0]["l"])
+                        dd = single_def(f, es[0]["l"])
+                        ok_shape = "pest::iterators::Pair" in ty or ty.endswith("rust_parser::Rule") or (dd is not None and dd[1] == "call" and dd[2].matches(r"as_rule$|Iterator>::next$"))
+                    else:
+                        k, pl, neg = trace_bool(f, t["discr"])
+                        ok_shape = k == "call" and bool(re.search(r"Rule as std::cmp::PartialEq>::(eq|ne)$", pl.func.get("full", "")))
+                    if not ok_shape:
+                        odd.append(f.where(sb))
+                ctx.check(not odd, "C14-R4", "skip-before-check", "before its directive check a statement is skipped only for its parse shape (other conditions at: %s)" % (odd or "none"), I.where())
                 # true arm -> no push in this iteration
                 for bb in sorted(f.reachable_blocks()):
                     t = f.term(bb)
